@@ -426,7 +426,7 @@ mutual
           let (ds, after) := spanChars (fun ch => ch.isDigit || ch == '_') rest
           if c == '0' && (match rest with | 'x' :: h :: _ => h.isAlphanum || h == '_' | 'b' :: h :: _ => h == '0' || h == '1' || h == '_' | _ => false) then .unsup "hex or binary literal"
           else match after with
-          | '.' :: d :: _ => if d.isDigit then .unsup "float literal" else .ok (.int (digitsVal (c :: ds))) after
+          | '.' :: d :: _ => if d.isDigit || d == '_' then .unsup "float literal" else .ok (.int (digitsVal (c :: ds))) after
           | 'e' :: d :: _ => if d.isDigit || d == '-' then .unsup "float literal" else .ok (.int (digitsVal (c :: ds))) after
           | 'E' :: d :: _ => if d.isDigit || d == '-' then .unsup "float literal" else .ok (.int (digitsVal (c :: ds))) after
           | _ => .ok (.int (digitsVal (c :: ds))) after
